@@ -55,7 +55,12 @@ def compare_pair(ctx, case, cfgd, Tc, Ti, data, offset, full=None, label="full")
         ctx.event(f"both_err:{label}")
     else:
         ctx.event(f"mixed:{label}")
-        if label == "full":
+        ok_tell = a[2] if a[0] == "ok" else b[2]
+        if label in ("full", "offset", "odd-offset") and ok_tell is not None and ok_tell > len(data):
+            # the input is shorter than the structure's extent and the reader that returned a value only skipped
+            # (trailing) padding beyond the end; the other one read it: no contradiction
+            ctx.event("mixed_outcome_on_missing_padding")
+        elif label == "full":
             which = "compiled" if a[0] == "err" else "interpreted"
             exc = a[1] if a[0] == "err" else b[1]
             viol("outcome", f"only-{which}-raises:{type(exc).__name__}", error=lib.exc_sig(exc))
